@@ -103,7 +103,7 @@ def w7(facts, tier):
         yield ob(["C12"], "W7", ty, st, where(sf), f"{ty}: {detail}", nontrivial=(st != "undecided"))
 
 
-@rule("W7d", ["C12"], floor=250, doc="derived schemas: for every corpus definition and version, the language the derived (field-wise) writer emits is "
+@rule("W7d", ["C12", "C05"], floor=250, doc="derived schemas: for every corpus definition and version, the language the derived (field-wise) writer emits is "
       "contained in the language a schema-driven reader parses from the derived schema (fields in order with the right types, variant "
       "discriminants and discriminant width, version ranges)")
 def w7d(facts, tier):
@@ -153,17 +153,17 @@ def w7d(facts, tier):
             if cause and ok is False:
                 agg.setdefault(cause, []).append((ty, v, rx.show_word(word), sf))
                 continue
-            yield ob(["C12"], "W7d", ty, "violation" if ok is False else "undecided", where(sf),
+            yield ob(["C12", "C05"], "W7d", ty, "violation" if ok is False else "undecided", where(sf),
                      f"{ty} at version {v}: the derived writer emits [{rx.show_word(word)}] which a reader driven by the derived schema cannot "
                      f"parse; writer: {rx.show(a)[:240]} ; schema describes: {rx.show(b)[:240]}", program=ty, version=v)
         elif und and n == 0:
-            yield ob(["C12"], "W7d", ty, "undecided", where(sf), f"derived schema builder not readable: {und}", program=ty)
+            yield ob(["C12", "C05"], "W7d", ty, "undecided", where(sf), f"derived schema builder not readable: {und}", program=ty)
         else:
-            yield ob(["C12"], "W7d", ty, "pass", where(sf), f"writer ⊆ schema language at {n} version(s)", program=ty)
+            yield ob(["C12", "C05"], "W7d", ty, "pass", where(sf), f"writer ⊆ schema language at {n} version(s)", program=ty)
     MSG = {"retyped-field-written-at-older-version": "a field whose type was changed with savefile_versions_as is simply omitted when the value is "
            "written at a version inside the conversion range, while schema(v) still describes the old type there",
            "enum-discriminant-wider-than-u8": "Variant.discriminant is a u8: for enums with more than 256 variants the schema's discriminants alias "
            "(variant 256 is recorded as 0) although the writer emits 2-byte discriminants"}
     for cause, ws in sorted(agg.items()):
-        yield ob(["C12"], "W7d", cause, "violation", where(ws[0][3]), f"{MSG[cause]}; {len(ws)} corpus definition(s), e.g. {ws[0][0]} at version "
+        yield ob(["C12", "C05"], "W7d", cause, "violation", where(ws[0][3]), f"{MSG[cause]}; {len(ws)} corpus definition(s), e.g. {ws[0][0]} at version "
                  f"{ws[0][1]}: writer emits [{ws[0][2]}]", witnesses=[w[0] for w in ws[:20]])
